@@ -774,7 +774,7 @@ Definition samples_of (f : nat) (r : recst) : list sample :=
 
 Lemma body_persisted : forall g cl r fls,
   persisted (fst (body c g cl r fls)) = persisted r \/
-  exists x, s_by x = OU g /\ persisted (fst (body c g cl r fls)) = persisted r ++ [x].
+  exists x, s_by x = OU g /\ persisted (fst (body c g cl r fls)) = x :: persisted r.
 Proof.
   intros g cl r fls. destruct cl; cbn [body fst]; auto.
   - destruct (canceler r); [|destruct (with_flusher c)]; auto.
@@ -803,7 +803,7 @@ Proof.
   - repeat split; try reflexivity. exists fl. repeat split; auto. intros [E|E]; discriminate.
   - split; [|split].
     + unfold samples_of. destruct (body_persisted g cl (rc s) (flushers s)) as [->|[x [Hx ->]]]; [reflexivity|].
-      rewrite filter_app. cbn [filter]. rewrite Hx. now rewrite app_nil_r.
+      cbn [filter]. now rewrite Hx.
     + intros [E|E]; discriminate.
     + destruct (body_fls_fwd c g cl (rc s) _ _ _ Hn) as [fl' [Hfl' [_ Hcc]]].
       exists fl'. repeat split; auto. intros [E|E]; discriminate.
@@ -825,8 +825,8 @@ Proof.
     + exists fl. repeat split; auto. intros [E|E]; inversion E; congruence.
   - destruct (Nat.eqb_spec f' f) as [->|Hne]; [exfalso; eauto|].
     split; [|split].
-    + unfold samples_of. cbn [persist stamp persisted]. rewrite filter_app. cbn [filter s_by].
-      apply Nat.eqb_neq in Hne. rewrite Nat.eqb_sym in Hne. rewrite Hne. now rewrite app_nil_r.
+    + unfold samples_of. cbn [persist stamp persisted]. cbn [filter s_by].
+      apply Nat.eqb_neq in Hne. rewrite Nat.eqb_sym in Hne. now rewrite Hne.
     + intros [E|E]; inversion E; congruence.
     + nu. apply Nat.eqb_neq in Hne. rewrite Hne. exists fl. repeat split; auto.
       apply Nat.eqb_neq in Hne. intros [E|E]; inversion E; congruence.
@@ -858,7 +858,7 @@ Lemma endtest_persists_sum : forall s g rest s', Inv s ->
     ops (rc s) = wrap64 (sumZ (cycle_incs l)) /\
     stamped (rc s) = cycle_stamped l /\
     (cycle_stamped l = true ->
-       persisted (rc s') = persisted (rc s) ++ [mkS (wrap64 (sumZ (cycle_incs l))) (gauge (rc s)) (OU g)]) /\
+       persisted (rc s') = mkS (wrap64 (sumZ (cycle_incs l))) (gauge (rc s)) (OU g) :: persisted (rc s)) /\
     (cycle_stamped l = false -> persisted (rc s') = persisted (rc s)) /\
     ops (rc s') = 0 /\ canceler (rc s') = None /\ uncancelled s' = O.
 Proof.
@@ -1049,7 +1049,7 @@ Lemma top_cancelled_flusher : forall s f fl, reachable c s ->
        exists fl', nth_error (flushers s') f = Some fl' /\ f_cancelled fl' = true).
 Proof.
   intros s f fl Hr Hn Hcf. pose proof (Inv_reachable c Hc s Hr) as I. split.
-  - intros t s' Ht Hs. destruct (cancelled_step c Hc _ _ _ _ _ I Hs Hn Hcf) as [_ [Hp [fl' [Hn' [_ Hrk]]]]].
+  - intros t s' Ht Hs. destruct (cancelled_step c _ _ _ _ _ I Hs Hn Hcf) as [_ [Hp [fl' [Hn' [_ Hrk]]]]].
     split; [now apply Hp|]. exists fl'. split; [exact Hn'|now apply Hrk].
   - intros sched s' Hrun. eapply cancelled_never_persists; eauto.
 Qed.
@@ -1073,7 +1073,7 @@ Lemma top_sum : forall s g rest s', reachable c s ->
   step c s (U g) = Some s' ->
   exists l, lock_log s = EndTest :: l /\
     (cycle_stamped l = true ->
-       persisted (rc s') = persisted (rc s) ++ [mkS (wrap64 (sumZ (cycle_incs l))) (gauge (rc s)) (OU g)]) /\
+       persisted (rc s') = mkS (wrap64 (sumZ (cycle_incs l))) (gauge (rc s)) (OU g) :: persisted (rc s)) /\
     (cycle_stamped l = false -> persisted (rc s') = persisted (rc s)) /\
     ops (rc s') = 0.
 Proof.
@@ -1095,7 +1095,7 @@ End Top.
 
 Lemma top_bounded_work : forall c progs sched s, run c (init progs) sched = Some s ->
   (user_steps sched + user_work s = 3 * length (concat progs))%nat.
-Proof. intros c progs sched s H. rewrite <- user_work_init. now apply bounded_work. Qed.
+Proof. intros c progs sched s H. rewrite <- user_work_init. now apply (bounded_work c). Qed.
 
 Lemma work_zero_returned : forall s, InvMu s -> user_work s = O -> all_user_calls_returned s.
 Proof.
@@ -1126,4 +1126,50 @@ Proof.
   - exists O. split; reflexivity.
   - exact old_stuck_dead.
   - intros [|t r] Hne; [congruence|]. cbn [run]. now rewrite old_stuck_dead.
+Qed.
+
+(* ====================================================================== *)
+(* Termination: from every reachable state the pending calls can be brought *)
+(* to completion, each unit of work within four steps                       *)
+(* ====================================================================== *)
+Lemma user_steps_repeat_F : forall f n, user_steps (repeat (F f) n) = O.
+Proof. intros f n. induction n; [reflexivity|exact IHn]. Qed.
+
+Lemma returned_work_zero : forall s, all_user_calls_returned s -> user_work s = O.
+Proof.
+  intros s H. unfold all_user_calls_returned, user_work in *. induction H as [|u l Hu Hl IH]; [reflexivity|].
+  cbn [map fold_right]. rewrite IH. unfold u_work. rewrite Hu. cbn [length]. now destruct (u_pc u).
+Qed.
+
+Lemma one_more_unit : forall c, flusher_unlocks_on_cancel c = true ->
+  forall s, reachable c s -> ~ all_user_calls_returned s ->
+  exists sched s', (1 <= length sched <= 4)%nat /\ run c s sched = Some s' /\
+                   (user_work s' + 1 = user_work s)%nat.
+Proof.
+  intros c Hc s Hr Hn. destruct (top_progress c Hc s Hr Hn) as [[g H]|[f [n [s1 [Hm [Hn' [Hrun [_ [g H]]]]]]]]].
+  - destruct (step c s (U g)) as [s'|] eqn:E; [|congruence]. exists [U g], s'. split; [cbn; lia|].
+    split; [cbn [run]; now rewrite E|]. exact (work_step _ _ _ _ (step_Step _ _ _ _ E)).
+  - destruct (step c s1 (U g)) as [s'|] eqn:E; [|congruence]. exists (repeat (F f) n ++ [U g]), s'.
+    split; [rewrite app_length, repeat_length; cbn; lia|]. split.
+    + rewrite run_app, Hrun. cbn [run]. now rewrite E.
+    + pose proof (bounded_work _ _ _ _ Hrun) as B. rewrite user_steps_repeat_F in B.
+      pose proof (work_step _ _ _ _ (step_Step _ _ _ _ E)) as W. cbv iota beta in W. lia.
+Qed.
+
+Lemma top_can_finish : forall c, flusher_unlocks_on_cancel c = true ->
+  forall s, reachable c s ->
+  exists sched s', run c s sched = Some s' /\ all_user_calls_returned s' /\
+                   (length sched <= 4 * user_work s)%nat.
+Proof.
+  intros c Hc s Hr. remember (user_work s) as k eqn:Ek. revert s Hr Ek.
+  induction k as [|k IH]; intros s Hr Ek.
+  - exists [], s. split; [reflexivity|]. split; [|cbn; lia].
+    apply work_zero_returned; [|now symmetry]. now destruct (Inv_reachable c Hc s Hr).
+  - assert (Hn : ~ all_user_calls_returned s).
+    { intros H. apply returned_work_zero in H. lia. }
+    destruct (one_more_unit c Hc s Hr Hn) as [sc [s1 [Hl [Hrun Hw]]]].
+    assert (Ek1 : k = user_work s1) by lia.
+    destruct (IH s1 (reachable_run c _ _ _ Hr Hrun) Ek1) as [sc2 [s2 [Hrun2 [Hret Hl2]]]].
+    exists (sc ++ sc2), s2. split; [now rewrite run_app, Hrun|]. split; [exact Hret|].
+    rewrite app_length. lia.
 Qed.
